@@ -17,7 +17,7 @@ EXPLANATION = (
     "by a raw String; (R4) keyword / built-in name recognition goes through cmp_str or "
     "eq_ignore_ascii_case; (R5) exactly the CR[LF] and LF line endings are recognised; (R6) the "
     "lexer never matches an ASCII letter constant exactly; (R7) two characters of program text are "
-    "never compared (order or equality) without case folding; (R10) every parser function that recognises the end of a line as the end of something recognises a colon too, or is tabled with the reason a colon is no alternative there; (R11) no token rule of the lexer raises a fatal error, because the lexer also tokenises comment and string text.")
+    "never compared (order or equality) without case folding; (R10) every parser function that recognises the end of a line as the end of something recognises a colon too, or is tabled with the reason a colon is no alternative there; (R11) no token rule of the lexer raises a fatal error, because the lexer also tokenises comment and string text; (R12) every use of the one-token end-of-statement lookahead skips optional blanks first.")
 NOT_DECIDED = [
     "equality of parse trees under layout transformations (blanks, comments, colon vs newline)",
     "row counting in create_row_col_view beyond presence of the CR / LF guards",
@@ -467,6 +467,37 @@ def r11_lexer_is_total(ctx, rule="C09.R11"):
     ctx.require(rule, 10)
 
 
+def r12_statement_end_lookahead_skips_blanks(ctx, rule="C09.R12"):
+    """`spacing and comments never change meaning`: blanks may stand between a statement and the
+    colon / comment / line end that follows it.  The lookahead parser that recognises the end of a
+    statement looks at exactly one token, so every place that uses it must skip optional blanks first
+    (its result is handed to lead_opt_ws); sibling rule over all call sites."""
+    prog = ctx.prog
+    n = 0
+    for f in sorted(prog.fns.values(), key=lambda f: f.id):
+        if f.crate != "rusty_parser":
+            continue
+        sites = [(b, t) for b, t in f.body.calls() if (t.get("cpath") or "").endswith("::peek_eof_or_statement_separator")]
+        if not sites:
+            continue
+        pv = mir.Prov(f.body)
+        wrapped = set()
+        for b2, t2 in f.body.calls():
+            if (t2.get("cpath") or "").split("::")[-1] in ("lead_opt_ws", "lead_ws") and t2["args"]:
+                o = mir.strip_all(pv.of_operand(t2["args"][0]))
+                if o[0] == "call" and o[1].endswith("::peek_eof_or_statement_separator"):
+                    wrapped.add(o[3] if len(o) > 3 else None)
+        for b, t in sites:
+            n += 1
+            owner = (prog.enclosing_fn(f) or f).path.split("::", 1)[1]
+            ctx.decide(b in wrapped or (None in wrapped), rule, "%s:%s" % (rule, owner), "%s:%s" % (f.file, t.get("ln")),
+                       "the end-of-statement lookahead is preceded by optional blanks",
+                       "%s uses the one-token end-of-statement lookahead without skipping blanks first: "
+                       "`KEYWORD ' comment` and `KEYWORD : next` (a blank before the comment / colon) are "
+                       "rejected although `KEYWORD` at the end of the line is accepted" % owner)
+    ctx.require(rule, 2)
+
+
 def run(ctx):
     common.install(ctx)
     r1_folding_pair(ctx)
@@ -482,3 +513,4 @@ def run(ctx):
     c13.r3_default_types(ctx, "C09.R9")
     r10_statement_end_is_eol_or_colon(ctx)
     r11_lexer_is_total(ctx)
+    r12_statement_end_lookahead_skips_blanks(ctx)
